@@ -673,4 +673,40 @@ V("c08-benign-p2c-mirrored", "C08", "benign", "", "lower bound written with the 
   "rfc7518/jwe_algs.py", "        if p2c < 1 or p2c > self.MAX_P2C:", "        if 1 > p2c or p2c > self.MAX_P2C:")
 V("c16-use-not-str-checked", "C16", "break", "E2f", "use / key_ops consistency hashes `use` without the str check (use given as a list -> TypeError)",
   "rfc7517/models.py", "            if not isinstance(_use, str) or _use not in cls.use_key_ops_registry:", "            if _use not in cls.use_key_ops_registry:")
+# ------------------------------------------------------------------------------------------------ rules added after the third seed batch
+V("c06-unsafe-prefix-fast-path", "C06", "break", "R06.5", "first-byte pre-filter in front of the PEM/SSH prefix test (ecdsa-sha2- keys skip the warning)",
+  "rfc7518/oct_key.py", "        if value.startswith(POSSIBLE_UNSAFE_KEYS):", "        if value[:1] in (b\"-\", b\"s\") and value.startswith(POSSIBLE_UNSAFE_KEYS):")
+V("c18-ephemeral-key-from-dict", "C18", "break", "R18.6", "ephemeral key taken from a per-message dict instead of generated",
+  "rfc7516/message.py", "    if isinstance(alg, JWEKeyAgreement):\n        alg.prepare_ephemeral_key(recipient)\n    return alg",
+  "    if isinstance(alg, JWEKeyAgreement):\n        if recipient.ephemeral_key is None and registry.__dict__.get(\"_eph\"):\n            recipient.ephemeral_key = registry.__dict__[\"_eph\"]\n        alg.prepare_ephemeral_key(recipient)\n    return alg")
+V("c20-shallow-copy-inner-list-mutated", "C20", "break", "R20.1", "as_dict edits the key_ops list shared with the key through a shallow copy",
+  "rfc7517/models.py", "        data.update(params)\n        return data\n\n    @classmethod\n    def validate_dict_key_registry" if False else "                del data[k]\n\n        data.update(params)\n        return data",
+  "                del data[k]\n\n        key_ops = data.get(\"key_ops\")\n        if isinstance(key_ops, list):\n            key_ops.remove(\"sign\")\n        data.update(params)\n        return data")
+V("c12-as-der-drops-private", "C12", "break", "R12.9", "as_der no longer forwards its private argument",
+  "rfc7517/models.py", "        return self.as_bytes(encoding=\"DER\", private=private, password=password)", "        return self.as_bytes(encoding=\"DER\", password=password)")
+V("c11-password-dropped-for-private", "C11", "break", "R11.12", "explicit private=True export ignores the password",
+  "rfc7517/pem.py", "            return dump_pem_key(key.private_key, encoding, private, password)", "            return dump_pem_key(key.private_key, encoding, private)")
+V("c14-single-key-shortcut-without-kid", "C14", "break", "R14.2", "guess_key returns the only key of a set directly (no kid lookup, no kid write-back)",
+  "jwk.py", "        if not kid and use_random:\n            # choose one key by random", "        if not kid and len(_norm_key.keys) == 1:\n            rv_key = _norm_key.keys[0]\n        elif not kid and use_random:\n            # choose one key by random")
+V("c09-single-key-shortcut-without-kid", "C09", "break", "R09.8", "guess_key returns the only key of a set directly: its kid never reaches the JWT header",
+  "jwk.py", "        if not kid and use_random:\n            # choose one key by random", "        if not kid and len(_norm_key.keys) == 1:\n            rv_key = _norm_key.keys[0]\n        elif not kid and use_random:\n            # choose one key by random")
+V("c03-protected-predicate-asymmetric", "C03", "break", "R03.6", "signing input uses `protected is not None`, the output `if protected`",
+  "rfc7515/json.py", "    if member.protected:\n        protected_segment = json_b64encode(member.protected)\n    else:\n        protected_segment = b\"\"",
+  "    protected_segment = b\"\"\n    if member.protected is not None:\n        protected_segment = json_b64encode(member.protected)")
+V("c02-direct-agreement-skips-empty-key-check", "C02", "break", "R02.6", "key agreement handled before the direct-mode empty-encrypted-key check",
+  "rfc7516/message.py", "    if alg.direct_mode:\n        # 10.  When Direct Key Agreement or Direct Encryption are employed,", "    if alg.direct_mode and not isinstance(alg, JWEKeyAgreement):\n        # 10.  When Direct Key Agreement or Direct Encryption are employed,")
+V("c02-aad-general-json-only", "C02", "break", "R02.2", "the JSON aad member is authenticated for the general serialization only",
+  "rfc7516/message.py", "    aad = obj.base64_segments[\"aad\"]\n    if isinstance(obj, BaseJSONEncryption) and obj.aad:", "    aad = obj.base64_segments[\"aad\"]\n    if isinstance(obj, GeneralJSONEncryption) and obj.aad:")
+V("c01-hmac-state-cached-by-kid", "C01", "break", "R01.6", "HMAC verify uses a keyed state cached on the algorithm object under the kid",
+  "rfc7518/jws_algs.py", "        op_key = key.get_op_key(\"verify\")\n        v_sig = hmac.new(op_key, msg, self.hash_alg).digest()",
+  "        op_key = key.get_op_key(\"verify\")\n        st = self.__dict__.setdefault(\"_keyed\", {})\n        if key.kid not in st:\n            st[key.kid] = hmac.new(op_key, None, self.hash_alg)\n        h = st[key.kid].copy()\n        h.update(msg)\n        v_sig = h.digest()")
+V("c04-def-limit-off-by-one", "C04", "break", "R04.6", "a plaintext of exactly the limit is reported as exceeding it",
+  "rfc7518/jwe_zips.py", "exceeded = decompressor.unconsumed_tail or decompressor.decompress(b\"\", 1)", "exceeded = decompressor.unconsumed_tail or len(value) >= MAX_SIZE")
+V("c05-zip-truthiness", "C05", "break", "R05.8", "an empty zip value is not looked up (and so not refused)",
+  "rfc7516/message.py", "    if \"zip\" in obj.protected:\n        zip_ = registry.get_zip(obj.protected[\"zip\"])\n        plaintext = zip_.compress(obj.plaintext)",
+  "    if obj.protected.get(\"zip\"):\n        zip_ = registry.get_zip(obj.protected[\"zip\"])\n        plaintext = zip_.compress(obj.plaintext)")
+V("c07-dot-stays-attached", "C07", "break", "R07.7", "b64=false payloads containing '.' stay attached in the compact form",
+  "rfc7797/compact.py", "_re_urlsafe = re.compile(\"^[a-zA-Z0-9-_~]+$\")", "_re_urlsafe = re.compile(\"^[a-zA-Z0-9\\\\-._~]+$\")")
+V("c13-as-dict-returns-internal", "C13", "break", "R13.5", "non-public as_dict returns (and updates) the key's own dict",
+  "rfc7517/models.py", "        data = self.dict_value.copy()\n        if private is not False:", "        data = self.dict_value\n        if private is not False:")
 
